@@ -4,6 +4,7 @@ import (
 	"fmt"
 	"go/token"
 	"go/types"
+	"os"
 	"sort"
 	"strings"
 
@@ -1054,6 +1055,45 @@ func (c *Ctx) flagValues(cmd *Command, name string) (map[ssa.Value]bool, ssa.Val
 					}
 				}
 			}
+		}
+		// the same selection written in place: mode := A; if flag { mode = B }
+		fnsWithFlag := map[*ssa.Function]bool{}
+		for v := range vals {
+			if in, ok := v.(ssa.Instruction); ok && in.Parent() != nil {
+				fnsWithFlag[in.Parent()] = true
+			}
+			if par, ok := v.(*ssa.Parameter); ok {
+				fnsWithFlag[par.Parent()] = true
+			}
+		}
+		for f := range fnsWithFlag {
+			if os.Getenv("CRSVERIF_NOPHI") != "" {
+				break
+			}
+			allInstrs(f, func(in ssa.Instruction) {
+				ph, ok := in.(*ssa.Phi)
+				if !ok || len(ph.Edges) != 2 || modes[ph] != nil {
+					return
+				}
+				k0, ok0 := ph.Edges[0].(*ssa.Const)
+				k1, ok1 := ph.Edges[1].(*ssa.Const)
+				if !ok0 || !ok1 || sameConst(k0, k1) {
+					return
+				}
+				onFlag := func(i int) bool {
+					pred := ph.Block().Preds[i]
+					return c.guardedByEdges(pred.Instrs[len(pred.Instrs)-1], func(cond ssa.Value, val bool) bool { return vals[cond] && val })
+				}
+				g0, g1 := onFlag(0), onFlag(1)
+				switch {
+				case g0 && !g1:
+					modes[ph] = &flagMode{k0, k1}
+					changed = true
+				case g1 && !g0:
+					modes[ph] = &flagMode{k1, k0}
+					changed = true
+				}
+			})
 		}
 		// modes travel through parameters like the flag itself; comparing a mode with the constant
 		// that stands for "flag set" is the flag again
